@@ -615,7 +615,7 @@ def digit_string(size: int, value: SupportsInt) -> str:
     :param value: numeric value
     :return: string with the requested size.
     """
-    return (size * "0" + str(value))[-size:]
+    return (size * "0" + str(int(value)))[-size:]
 
 
 digits_5 = partial(digit_string, 5)
